@@ -253,3 +253,211 @@ func runSlotGuard(c *Ctx) []Obligation {
 	}
 	return out
 }
+
+// ABSENT-IS-ERROR (C26): "the response reports an error if and only if applying the change failed".
+// The by-ID tag mutators of a mutable world (AddTag, RemoveTag) fail when the feature does not
+// exist; the sibling implementations agree that this is an error ("No feature with ID …"). A sibling
+// that guards its work with the existence test but then falls through to `return nil` reports
+// success — and the change's Apply lists the ID as modified — for a feature that is not there.
+//
+// Slots (by shape, package ingest): methods named AddTag or RemoveTag with a first parameter of type
+// b6.FeatureID and a single error result. Obligation per method, decided on the control-flow graph: no
+// `return nil` is reachable from the entry along a path on which every existence test of that ID (a
+// value looked up with the ID compared with nil, a comma-ok of such a lookup, a Has…(id) call) takes
+// its "absent" edge.
+func init() {
+	register(&Rule{
+		Name:  "ABSENT-IS-ERROR",
+		IR:    "ast",
+		Props: []string{"C26"},
+		Floor: 4,
+		Doc:   "a by-ID tag mutator of a mutable world returns success only inside the success branch of its existence test for that ID: for a feature that does not exist it returns an error, as its sibling implementations do",
+		Run:   runAbsentIsError,
+	})
+}
+
+func runAbsentIsError(c *Ctx) []Obligation {
+	var out []Obligation
+	p := c.Pkg("ingest")
+	if p == nil {
+		return out
+	}
+	info := p.TypesInfo
+	for _, fd := range c.FuncDecls(p) {
+		if fd.Recv == nil || (fd.Name.Name != "AddTag" && fd.Name.Name != "RemoveTag") {
+			continue
+		}
+		obj, _ := info.Defs[fd.Name].(*types.Func)
+		if obj == nil {
+			continue
+		}
+		sig := obj.Type().(*types.Signature)
+		if sig.Params().Len() < 1 || sig.Results().Len() != 1 || !isNamed(sig.Params().At(0).Type(), ModulePath, "FeatureID") || sig.Results().At(0).Type().String() != "error" {
+			continue
+		}
+		if n := namedOf(sig.Recv().Type()); n != nil && n.Obj().Name() == "ModifiedTags" {
+			continue
+		}
+		idParam := sig.Params().At(0)
+		mentionsID := func(n ast.Node) bool {
+			hit := false
+			ast.Inspect(n, func(m ast.Node) bool {
+				if id, ok := m.(*ast.Ident); ok && info.Uses[id] == types.Object(idParam) {
+					hit = true
+				}
+				return true
+			})
+			return hit
+		}
+		// variables assigned from a call that mentions the id
+		looked := map[types.Object]bool{}
+		ast.Inspect(fd.Body, func(n ast.Node) bool {
+			as, ok := n.(*ast.AssignStmt)
+			if !ok {
+				return true
+			}
+			for _, r := range as.Rhs {
+				if _, isCall := ast.Unparen(r).(*ast.CallExpr); isCall && mentionsID(r) {
+					for _, l := range as.Lhs {
+						if id, ok := l.(*ast.Ident); ok {
+							if o := info.Defs[id]; o != nil {
+								looked[o] = true
+							} else if o := info.Uses[id]; o != nil {
+								looked[o] = true
+							}
+						}
+					}
+				}
+				if ix, isIdx := ast.Unparen(r).(*ast.IndexExpr); isIdx && mentionsID(ix.Index) {
+					for _, l := range as.Lhs {
+						if id, ok := l.(*ast.Ident); ok {
+							if o := info.Defs[id]; o != nil {
+								looked[o] = true
+							}
+						}
+					}
+				}
+			}
+			return true
+		})
+		isExistence := func(cond ast.Expr) bool {
+			found := false
+			ast.Inspect(cond, func(n ast.Node) bool {
+				switch x := n.(type) {
+				case *ast.BinaryExpr:
+					if x.Op == token.NEQ {
+						for _, pr := range [][2]ast.Expr{{x.X, x.Y}, {x.Y, x.X}} {
+							if nid, ok := ast.Unparen(pr[1]).(*ast.Ident); ok && nid.Name == "nil" {
+								if id, ok := ast.Unparen(pr[0]).(*ast.Ident); ok && looked[info.Uses[id]] {
+									found = true
+								}
+							}
+						}
+					}
+				case *ast.Ident:
+					if o := info.Uses[x]; o != nil && looked[o] {
+						if b, ok := o.Type().Underlying().(*types.Basic); ok && b.Kind() == types.Bool {
+							found = true
+						}
+					}
+				case *ast.CallExpr:
+					if sel, ok := ast.Unparen(x.Fun).(*ast.SelectorExpr); ok && strings.HasPrefix(sel.Sel.Name, "Has") && mentionsID(x) {
+						found = true
+					}
+				}
+				return true
+			})
+			return found
+		}
+		ob := Obligation{Key: c.FuncName(p, fd), Pos: c.Position(fd.Pos()), Status: OK}
+		var bad []string
+		successes := 0
+		isNilReturn := func(n ast.Node) bool {
+			r, ok := n.(*ast.ReturnStmt)
+			if !ok || len(r.Results) != 1 {
+				return false
+			}
+			id, ok := ast.Unparen(r.Results[0]).(*ast.Ident)
+			return ok && id.Name == "nil"
+		}
+		inspectShallow(fd.Body, func(n ast.Node) bool {
+			if isNilReturn(n) {
+				successes++
+			}
+			return true
+		})
+		// polarity of an existence condition: +1 the true edge means "exists", -1 the false edge does, 0 not an existence test
+		polarity := func(cond ast.Expr) int {
+			cond = ast.Unparen(cond)
+			if u, ok := cond.(*ast.UnaryExpr); ok && u.Op == token.NOT {
+				if isExistence(u.X) {
+					return -1
+				}
+				return 0
+			}
+			if be, ok := cond.(*ast.BinaryExpr); ok && be.Op == token.EQL {
+				for _, pr := range [][2]ast.Expr{{be.X, be.Y}, {be.Y, be.X}} {
+					if nid, ok := ast.Unparen(pr[1]).(*ast.Ident); ok && nid.Name == "nil" {
+						if id, ok := ast.Unparen(pr[0]).(*ast.Ident); ok && looked[info.Uses[id]] {
+							return -1
+						}
+					}
+				}
+				return 0
+			}
+			if isExistence(cond) {
+				return 1
+			}
+			return 0
+		}
+		g := newCFG(info, fd.Body)
+		seen := map[int32]bool{}
+		var walk func(bi int32)
+		walk = func(bi int32) {
+			if seen[bi] {
+				return
+			}
+			seen[bi] = true
+			b := g.Blocks[bi]
+			for _, n := range b.Nodes {
+				if isNilReturn(n) {
+					bad = append(bad, c.Position(n.Pos()))
+					return
+				}
+				if _, ok := n.(*ast.ReturnStmt); ok {
+					return
+				}
+			}
+			if len(b.Succs) == 2 && len(b.Nodes) > 0 {
+				if cond, ok := b.Nodes[len(b.Nodes)-1].(ast.Expr); ok {
+					switch polarity(cond) {
+					case 1:
+						walk(b.Succs[1].Index) // only the "absent" edge
+						return
+					case -1:
+						walk(b.Succs[0].Index)
+						return
+					}
+				}
+			}
+			for _, s := range b.Succs {
+				walk(s.Index)
+			}
+		}
+		if len(g.Blocks) > 0 {
+			walk(0)
+		}
+		switch {
+		case len(bad) > 0:
+			ob.Status = Violation
+			ob.Detail = fmt.Sprintf("%s returns nil at %s outside the success branch of its existence test for %s: for a feature that does not exist it reports success, and the change's Apply lists the ID as modified (its siblings return \"No feature with ID\")",
+				c.FuncName(p, fd), strings.Join(bad, ", "), idParam.Name())
+		case successes == 0:
+			ob.Detail = "never reports success (read-only world)"
+		default:
+			ob.Detail = fmt.Sprintf("every one of its %d success return(s) is inside the success branch of an existence test of %s", successes, idParam.Name())
+		}
+		out = append(out, ob)
+	}
+	return out
+}
